@@ -46,7 +46,7 @@ CHECKS = {
  "C13": (T + "projection oracle: as_netflow_common / parse_bytes_as_netflow_common_flowsets vs a projection computed from the abstract stream with an independent projected-field table",
          "For V5/V7/V9/IPFIX streams whose templates mix the ten projected fields (IPv4 or IPv6 variants) with others: version, timestamp, one flow per record in order, every field equal to the abstract value and None exactly when the record has no such field; errors convert to Err; the flattening helper equals the concatenation over the packets of the buffer.",
          "Projected fields are generated at their natural widths and at most once per template so that the projection is unambiguous."),
- "C15": (T + "counting global allocator around every parse_bytes call (work / single-request / output bounds on hostile histories, constant-free doubling tests on 48 size-parametrised families, cache-size independence, announced-count inputs) plus valgrind/callgrind instruction counts of single parse_bytes calls (doubling and cache-size independence of the CPU cost)",
+ "C15": (T + "counting global allocator around every parse_bytes call (work / single-request / output bounds on hostile histories, constant-free doubling tests on 49 size-parametrised families, cache-size independence, announced-count inputs) plus valgrind/callgrind instruction counts of single parse_bytes calls (doubling and cache-size independence of the CPU cost)",
          "Bytes requested, allocation count, peak, largest single request and result size (bytes released when the result is dropped) are deterministic per call; instruction counts of the measured call come from callgrind (counters zeroed on entry, dumped on exit). Sharp monitors: doubling pairs in allocation and in instructions (k vs 2k must stay linear for every repetition of the format), cache-size independence (same input on a fresh parser and on one holding thousands of unrelated templates) and the single-request bound (no allocation sized by a count/length field beyond what the input or result justifies); the absolute bounds use constants calibrated on the repaired tree.",
          "CPU cost is observed only along the doubling families, allocation on every call; calls whose caches hold zero-length fields are attributed to the listed amplification finding and judged against exactly that model's allowance. A missing valgrind makes the instruction monitor inconclusive (note), never a violation."),
  "C16": (T + "JSON oracle: serde_json output read back by an independent order-preserving reader and compared with a tree built independently from the decoded structure; text compared across repeats and parser instances",
